@@ -5,6 +5,7 @@ package vc
 import (
 	"fmt"
 	"go/ast"
+	"go/token"
 	"go/types"
 	"sort"
 	"strings"
@@ -210,12 +211,14 @@ func (c *Ctx) vacuity(what string) {
 	c.oblSeen[name] = true
 	var hyps []Term
 	for _, h := range c.St.Path {
-		if !c.axiomSet[h.S] { // library axioms are not what the vacuity check is about
+		// library axioms are not what the vacuity check is about; quantified hypotheses are left out
+		// (a satisfiability check with quantifiers rarely terminates): the quantifier-free part must be satisfiable
+		if !c.axiomSet[h.S] && !strings.Contains(h.S, "(forall ") && !strings.Contains(h.S, "(exists ") {
 			hyps = append(hyps, h)
 		}
 	}
 	o := &Obligation{Name: name, Base: name, Func: c.FuncName, Kind: "vacuity", Hyps: hyps,
-		Goal: False, Src: "precondition is satisfiable", Pos: c.E.relPos(c.curPos), Vacuity: true, Decls: c.decls, Serves: c.serves}
+		Goal: False, Src: "precondition is satisfiable (quantifier-free part)", Pos: c.E.relPos(c.curPos), Vacuity: true, Decls: c.decls, Serves: c.serves}
 	c.obls = append(c.obls, o)
 }
 
@@ -415,4 +418,164 @@ func (e *Engine) ProveLemma(pi *PkgInfo, lm *Lemma) *FuncResult {
 	res.Obls = c.obls
 	res.Paths = 1
 	return res
+}
+
+// VerifyRefinement checks that the contract of an implementation implies the contract of the interface
+// method it implements: a synthetic body `return this.(*T).M(args...)` is verified against the interface contract.
+func (e *Engine) VerifyRefinement(pi *PkgInfo, ifaceFn *types.Func, ict *Contract, implT *types.Named, implFn *types.Func, implCt *Contract) *FuncResult {
+	name := fmt.Sprintf("%s.%s/refines(%s)", pi.Name, implCt.Name, ict.Name)
+	res := &FuncResult{Name: name, Pkg: pi.Name, Serves: uniq(append(append([]string{}, ict.Serves...), implCt.Serves...))}
+	c := e.newCtx(pi, name)
+	c.serves = res.Serves
+	func() {
+		defer func() {
+			if r := recover(); r != nil {
+				switch x := r.(type) {
+				case pathEnd:
+					return
+				case refusal:
+					res.Refused = x.msg
+					return
+				}
+				panic(r)
+			}
+		}()
+		c.St = &State{Heap: map[string]Term{}}
+		top0 := c.fresh("top", SInt)
+		c.St.Top = top0
+		c.assume(Lt(IntLit(0), top0))
+		sig := ifaceFn.Type().(*types.Signature)
+		// receiver of the dynamic type under consideration
+		recvT := types.NewPointer(implT)
+		seed := &Frame{Pkg: pi, Vars: map[types.Object]*Val{}, Boxed: map[types.Object]Term{}, ByName: map[string][]types.Object{},
+			Ghost: map[string]*Val{}, Ints: pi.Spec.Ints, Floats: pi.Spec.Floats}
+		c.Fr = seed
+		recv := c.freshVal("this", recvT, seed.Ints, seed.Floats)
+		c.assume(Lt(IntLit(0), recv.T))
+		c.assume(Eq(App(SInt, "dyntype", recv.T), IntLit(int64(e.typeTag(namedKey(implT))))))
+		var args []*Val
+		for i := 0; i < sig.Params().Len(); i++ {
+			p := sig.Params().At(i)
+			args = append(args, c.freshVal(p.Name(), p.Type(), seed.Ints, seed.Floats))
+		}
+		ifaceRecv := Scalar(recv.T, sig.Recv().Type())
+		fr := c.calleeFrame(pi, ifaceFn, ict, ifaceRecv, args)
+		fr.Caller = nil
+		c.Fr = fr
+		c.curPos = e.posOfContract(ict)
+		fr.OldHeap = c.St.cloneHeap()
+		fr.OldTop = c.St.Top
+		for _, r := range ict.Requires {
+			c.assume(c.evalSpecBool(r.E))
+		}
+		entries := c.evalModEntries(ict.Modifies)
+		fr.ModSet = inModPred(entries)
+		fr.OldHeap = c.St.cloneHeap()
+		c.vacuity("requires")
+		if len(ict.Callbacks) > 0 || len(implCt.Callbacks) > 0 {
+			c.refineCallbacks(fr, ict, implCt, implFn, recv, args)
+			return
+		}
+		out := c.callContract(pi, implFn, implCt, Scalar(recv.T, recvT), args, nil)
+		switch {
+		case out.K == VTuple:
+			fr.Results = out.Elems
+		default:
+			fr.Results = []*Val{out}
+		}
+		for i, r := range fr.Results {
+			if i < sig.Results().Len() {
+				fr.Results[i] = c.assignConv(r, implFn.Type().(*types.Signature).Results().At(i).Type(), sig.Results().At(i).Type())
+			}
+		}
+		c.checkExit(ict)
+	}()
+	res.Obls = c.obls
+	res.Paths = 1
+	return res
+}
+
+func (e *Engine) posOfContract(ct *Contract) token.Pos { return token.NoPos }
+
+// refineCallbacks: for higher-order methods the implementation's promise about the arguments it passes to the
+// callback must imply the interface's, and its postconditions must imply the interface's (same ghost state).
+func (c *Ctx) refineCallbacks(fr *Frame, ict, implCt *Contract, implFn *types.Func, recv *Val, args []*Val) {
+	pi := fr.Pkg
+	implFr := c.calleeFrame(pi, implFn, implCt, Scalar(recv.T, types.NewPointer(structNamed(recv.Typ))), args)
+	implFr.OldHeap, implFr.OldTop = fr.OldHeap, fr.OldTop
+	// requires
+	c.Fr = implFr
+	for i, r := range implCt.Requires {
+		t := c.evalSpecBool(r.E)
+		c.assert("refines-pre", fmt.Sprintf("%d", i+1), t, r.Src, nil)
+	}
+	// shared ghost state: arbitrary values
+	for _, g := range ict.GhostVars {
+		v, ts := c.bindVar(SBinder{g.Name, g.Type}, "g")
+		for _, t := range ts {
+			c.declare(t.S, t.Sort)
+		}
+		fr.Ghost[g.Name] = v
+		implFr.Ghost[g.Name] = v
+	}
+	for name, icb := range ict.Callbacks {
+		mcb := implCt.Callbacks[name]
+		if mcb == nil {
+			c.refuse("implementation %s has no callback contract for %s", implCt.Name, name)
+		}
+		// callback arguments
+		var sig *types.Signature
+		isig := fr.Sig
+		for i := 0; i < isig.Params().Len(); i++ {
+			if isig.Params().At(i).Name() == name {
+				sig, _ = isig.Params().At(i).Type().Underlying().(*types.Signature)
+			}
+		}
+		if sig == nil {
+			c.refuse("callback parameter %s not found", name)
+		}
+		envI := &specEnv{vars: map[string]*Val{}}
+		envM := &specEnv{vars: map[string]*Val{}}
+		for i := 0; i < sig.Params().Len(); i++ {
+			a := c.freshVal("cb", sig.Params().At(i).Type(), fr.Ints, fr.Floats)
+			if i < len(icb.ParamNames) {
+				envI.vars[icb.ParamNames[i]] = a
+			}
+			if i < len(mcb.ParamNames) {
+				envM.vars[mcb.ParamNames[i]] = a
+			}
+		}
+		n0 := len(c.St.Path)
+		c.Fr, c.bound = implFr, envM
+		for _, r := range mcb.Requires {
+			c.assume(c.evalSpecBool(r.E))
+		}
+		c.Fr, c.bound = fr, envI
+		for i, r := range icb.Requires {
+			c.assert("refines-callback("+name+")", fmt.Sprintf("%d", i+1), c.evalSpecBool(r.E), r.Src, nil)
+		}
+		c.bound = nil
+		c.St.Path = c.St.Path[:n0]
+	}
+	// postconditions over an arbitrary post-state
+	c.havocEverything()
+	c.Fr = implFr
+	implFr.InEnsures = true
+	for _, q := range implCt.Ensures {
+		c.assume(c.evalSpecBool(q.E))
+	}
+	c.Fr = fr
+	fr.InEnsures = true
+	for i, q := range ict.Ensures {
+		label := q.Label
+		if label == "" {
+			label = fmt.Sprintf("%d", i+1)
+		}
+		c.assert("ensures", label, c.evalSpecBool(q.E), q.Src, q.Serves)
+	}
+}
+
+func structNamed(t types.Type) *types.Named {
+	n, _ := structOf(t)
+	return n
 }
